@@ -36,6 +36,11 @@ type Config struct {
 	Workers  int                          // 0 = NumCPU
 	Enabled  func(hist []int, l int) bool // optional alphabet restriction (nil = all)
 	MaxFails int                          // stop collecting after this many distinct signatures (default 25)
+	// Root is a history from which the search starts (its state is the initial state of this search; MaxDepth
+	// still bounds the total history length). Used to shard a search over processes.
+	Root []int
+	// KeepFrontier makes the result carry the unexpanded frontier at MaxDepth.
+	KeepFrontier bool
 }
 
 // Found is a failure together with the shortest history that shows it.
@@ -55,10 +60,11 @@ type Result struct {
 	PerDepth       []int
 	Fails          []Found
 	Samples        [][]string
-	Revisits       int // transitions that led to an already known state
-	ObsChecked     int // revisits on which the differential oracle was evaluated
-	Pruned         int // violating transitions whose target state was not expanded
-	PerLetter      []int // transitions executed per letter
+	Revisits       int     // transitions that led to an already known state
+	ObsChecked     int     // revisits on which the differential oracle was evaluated
+	Pruned         int     // violating transitions whose target state was not expanded
+	PerLetter      []int   // transitions executed per letter
+	Frontier       [][]int // with KeepFrontier: histories of the states at MaxDepth
 }
 
 type succ struct {
@@ -89,13 +95,16 @@ func BFS(cfg Config) Result {
 	failSeen := map[string]bool{}
 
 	init := cfg.New()
+	for _, l := range cfg.Root {
+		init.Apply(l, false)
+	}
 	h0 := hash(init.Canon())
 	seen[h0] = init.Obs()
-	frontier := [][]int{{}}
+	frontier := [][]int{append([]int{}, cfg.Root...)}
 	res.States = 1
 	res.PerDepth = append(res.PerDepth, 1)
 
-	for depth := 1; depth <= cfg.MaxDepth; depth++ {
+	for depth := len(cfg.Root) + 1; depth <= cfg.MaxDepth; depth++ {
 		if len(frontier) == 0 {
 			res.Closed = true
 			res.DepthCompleted = cfg.MaxDepth
@@ -199,6 +208,12 @@ func BFS(cfg Config) Result {
 	}
 	if len(frontier) == 0 {
 		res.Closed = true
+	}
+	if cfg.KeepFrontier {
+		res.Frontier = frontier
+	}
+	if cfg.MaxDepth <= len(cfg.Root) {
+		res.DepthCompleted = cfg.MaxDepth
 	}
 	res.Exhaustive = res.DepthCompleted == cfg.MaxDepth
 	return res
